@@ -99,3 +99,19 @@ func (p *Program) FuncIn(pkg, name string) *ssa.Function {
 	}
 	return sp.Func(name)
 }
+
+// OverlayOnly computes the overlay mapping without loading the program.
+func OverlayOnly(repoDir, pkgDir, harnessDir string) (*Program, error) {
+	ents, err := os.ReadDir(harnessDir)
+	if err != nil {
+		return nil, err
+	}
+	p := &Program{Overlay: map[string]string{}, RepoDir: repoDir}
+	for _, e := range ents {
+		if e.IsDir() || !strings.HasSuffix(e.Name(), ".go") || strings.HasSuffix(e.Name(), "_test.go") {
+			continue
+		}
+		p.Overlay[filepath.Join(repoDir, pkgDir, "zz_verif_"+e.Name())] = filepath.Join(harnessDir, e.Name())
+	}
+	return p, nil
+}
